@@ -14,6 +14,7 @@ C12 (laziness and causality): Engine.tla.
 
 from __future__ import annotations
 
+import collections
 import copy
 import multiprocessing as mp
 import time
@@ -121,7 +122,7 @@ def _job(args):
     kind, inst_desc, sched, p, sid, opts = args
     inst = hermitian.from_description(inst_desc)
     inst["complex"] = True
-    custom = opts.get("custom", False)
+    custom = opts.get("custom", False) or opts.get("input_kind") == "algebra"
     try:
         truth, _ = engine_run.fresh_truth(inst, p, custom_solver=custom)
     except (common.NonFinite, hermitian.NotRepresentable) as e:
@@ -153,13 +154,12 @@ def _job(args):
     return ses
 
 
-def count_callbacks(inst, sched, p, custom):
-    truth, _ = engine_run.fresh_truth(inst, p, custom_solver=custom)
+def count_callbacks(inst, sched, p, custom, input_kind="lazy"):
     ses_inj = engine_run.Injector()
     # clean traced run is not needed for counting: drive untraced
     import warnings
 
-    outs, _ = engine_run.build(inst, ses_inj, custom_solver=custom)
+    outs, _ = engine_run.build(inst, ses_inj, custom_solver=custom, input_kind=input_kind)
     series = dict(zip(engine_run.OUT_NAMES, outs))
     for (_, req) in sched:
         with warnings.catch_warnings():
@@ -228,33 +228,50 @@ def run(pid, tier, seed, replay=None):
                 add("exhaustive-L2", inst, concretise(s, inst))
             for n_, s in enumerate(sim):
                 hm = n_ % 4 != 3
+                if n_ % 5 == 4:
+                    # opaque algebra elements, pre-blocked lazy series, custom solver
+                    inst = draw_instance(rng, nb=3, N=3, hermitian_mode=hm, custom=True)
+                    add("simulated-L6-algebra" + ("" if hm else "-nonhermitian"), inst, concretise(s, inst),
+                        ncomp=2, input_kind="algebra", custom=True)
+                    continue
                 inst = draw_instance(rng, nb=3, N=3, hermitian_mode=hm)
                 add("simulated-L6" + ("" if hm else "-nonhermitian"), inst, concretise(s, inst), ncomp=2,
                     input_kind="lazy" if n_ % 3 else "dict")
         elif pid == "C11":
-            n_inst = 2 if quick else 6
+            n_inst = 3 if quick else 9
             for q in range(n_inst):
                 custom = q % 2 == 1
-                inst = draw_instance(rng, nb=2 if q % 3 else 3, k=1 if q % 2 == 0 else 2, N=3 if quick else None,
-                                     custom=custom)
+                # every third instance: the Hamiltonian's elements are opaque algebra elements
+                # whose product is a user callback too (fault at every multiplication)
+                ikind = "algebra" if q % 3 == 2 else "lazy"
+                if ikind == "algebra":
+                    custom = True
+                inst = draw_instance(rng, nb=2 if q % 3 else 3, k=1 if q % 2 == 0 else 2,
+                                     N=3 if quick else None, custom=custom)
                 scheds, r1 = tlc_schedules(len(inst["sizes"]), [2, 3], [(0, 0), (0, 1), (1, 0)], [0, 1], [0], 2,
                                            simulate=2 if quick else 4, seed=seed + q)
                 stats["states"] += r1.generated
                 stats["transitions"] += r1.generated
                 for s in scheds[: (1 if quick else 3)]:
                     sched = concretise(s, inst)
-                    K, _ = count_callbacks(inst, sched, p, custom)
+                    if ikind == "algebra":
+                        # make sure element products happen: a top-order element of H_tilde
+                        top = max(order_seq(inst["k"], inst["N"]), key=lambda m: (sum(m), min(m)))
+                        sched = sched + [(0, ("Ht", 0, 0, tuple(top)))]
+                    K, _ = count_callbacks(inst, sched, p, custom, ikind)
                     tail = full_reread(inst)
                     classes = ["Exception", "RuntimeError", "KeyboardInterrupt"]
-                    add("clean", inst, sched + tail, custom=custom)
+                    add("clean", inst, sched + tail, custom=custom, input_kind=ikind)
                     for c in range(1, K + 1):
                         for cls in classes:
-                            add("single-fault", inst, sched + tail, plan={c: cls}, custom=custom, recheck=0)
+                            add("single-fault", inst, sched + tail, plan={c: cls}, custom=custom, recheck=0,
+                                input_kind=ikind)
                     # repeated faults: pairs of injection points (every class pairing sampled)
                     pairs = [(a, b) for a in range(1, K + 1) for b in range(a + 1, K + 2)]
                     for (a, b) in rng.sample(pairs, min(len(pairs), 6 if quick else 40)):
                         add("double-fault", inst, sched + tail,
-                            plan={a: rng.choice(classes), b: rng.choice(classes)}, custom=custom, recheck=0)
+                            plan={a: rng.choice(classes), b: rng.choice(classes)}, custom=custom, recheck=0,
+                            input_kind=ikind)
         elif pid == "C12":
             sim, r2 = tlc_schedules(2, [0, 1, 2, 3], [(0, 0), (0, 1), (1, 0), (1, 1)], [0, 1], [0],
                                     4, simulate=30 if quick else 400, seed=seed)
@@ -264,6 +281,11 @@ def run(pid, tier, seed, replay=None):
                 inst = draw_instance(rng, nb=2 if n_ % 2 else 3, k=[1, 2, 3][n_ % 3], N=3)
                 sched = concretise([x for x in s if x[2] < len(inst["sizes"]) and x[3] < len(inst["sizes"])], inst)
                 add("lazy-causal", inst, sched)
+                if n_ % 4 == 3:
+                    inst_a = draw_instance(rng, nb=len(inst["sizes"]), k=inst["k"], N=3, custom=True)
+                    add("lazy-causal-algebra", inst_a, concretise(
+                        [x for x in s if x[2] < len(inst_a["sizes"]) and x[3] < len(inst_a["sizes"])], inst_a),
+                        input_kind="algebra", custom=True)
                 # two-run relation on the first scalar request
                 scal = [r for r in sched if not any(isinstance(o, tuple) for o in r[1][3])]
                 if scal:
@@ -337,7 +359,10 @@ def run(pid, tier, seed, replay=None):
         distinct_nontrivial=len({(str(m["schedule"]), str(m["opts"]), str(m["instance"]["E"])) for m in meta.values()}),
         rule="session = (instance, request schedule from Session.tla, fault plan / altered terms); distinct by all three",
         events_validated=sum(len(s["ev"]) for s in sessions),
-        session_kinds=kinds, mode_a=mode_a, sessions_skipped_nonfinite_truth=len(skipped), undisturbed_runs_validated_by_LeastAction=truth_checked,
+        session_kinds=kinds, input_kinds=dict(collections.Counter(m["opts"].get("input_kind", "lazy") for m in meta.values())),
+        fault_points_by_callback=dict(collections.Counter(
+            e["what"].split(",")[0].strip("('\"") for s in sessions for e in s["ev"] if e["t"] == "inject")),
+        mode_a=mode_a, sessions_skipped_nonfinite_truth=len(skipped), undisturbed_runs_validated_by_LeastAction=truth_checked,
         negative_controls=control, exhaustive=False,
     )
     common.write_evidence(pid, tier, seed, coverage, time.time() - t0, len(violations),
